@@ -63,12 +63,32 @@ def _n1(ctx, rep):
     n_fun = 0
     clean = 0
     origin_hits = set()
+    origin_reach = {}
     called = set()
     for q, sm in ef.summ.items():
         called |= set(getattr(sm, "callees", ()))
         for site in sm.sites:
             if not site.root:
                 origin_hits |= set(site.origins or ())
+                fq = ctx.ix.funcs[q]
+                for o in site.origins or ():
+                    for r in site.regions:
+                        if r[0] != FRESH[0]:
+                            origin_reach.setdefault((site.via, o), set()).add((q, "self" if (fq.self_name and r[0] == fq.self_name) else r[0]))
+
+    def nearest_public(q0, origin):
+        """public functions (with the parameter concerned) that reach the write `origin` in helper q0 through internal functions only"""
+        tops, seen, todo = set(), {q0}, [q0]
+        while todo:
+            cur = todo.pop()
+            for cq, cp in origin_reach.get((cur, origin), ()):
+                if _internal(ctx.ix.funcs[cq]):
+                    if cq not in seen:
+                        seen.add(cq)
+                        todo.append(cq)
+                else:
+                    tops.add((cq, cp))
+        return tops
     for q, sm in sorted(ef.summ.items()):
         f = ctx.ix.funcs[q]
         if not thorough and not f.module.name.startswith(QUICK_PKGS):
@@ -102,6 +122,17 @@ def _n1(ctx, rep):
                 reaching = {r for r in keep if (q, "self" if (f.self_name and r[0] == f.self_name) else r[0]) in origin_hits}
                 if not reaching:
                     rep.info("N1", f, site.node, "internal helper updates its argument in place; every caller hands it storage of its own", node=site.node)
+                    continue
+                # the write counts against the public callers whose parameter reaches it; documented ones are allow-listed there
+                def documented(r):
+                    key = (q, "self" if (f.self_name and r[0] == f.self_name) else r[0])
+                    tops = nearest_public(q, key)
+                    return bool(tops) and all(t in ALLOWED for t in tops)
+                doc = {r for r in reaching if documented(r)}
+                for r in sorted(doc):
+                    rep.info("N1", f, site.node, "internal helper of an allow-listed public function: the write reaches only its documented parameter", node=site.node)
+                reaching -= doc
+                if not reaching:
                     continue
                 keep = sorted(reaching)
             params = sorted({r[0] for r in keep})
